@@ -203,17 +203,17 @@ ViolS(s, o) ==
 
 VARIABLE st     \* algebra: an address; string: a symbol sequence
 
-\* algebra: the local part is chosen first (initial states), the domain in one step,
+\* algebra: local part and tld are chosen first (initial states), the label in one step,
 \* so that the workers share the addresses; string: one symbol is appended per step
-Init == IF Layer = "algebra" THEN st \in {[lp |-> l, dom |-> <<>>] : l \in Lps} ELSE st = <<>>
+Init == IF Layer = "algebra" THEN st \in {[lp |-> l, dom |-> <<t>>] : l \in Lps, t \in Tlds} ELSE st = <<>>
 Next == \/ /\ Layer = "string"
            /\ Len(st) < StrLen
            /\ \E c \in Sym : st' = Append(st, c)
         \/ /\ Layer = "algebra"
-           /\ st.dom = <<>>
-           /\ \E d \in Labs, t \in Tlds : st' = [lp |-> st.lp, dom |-> <<d, t>>]
+           /\ Len(st.dom) = 1
+           /\ \E d \in Labs : st' = [lp |-> st.lp, dom |-> <<d, st.dom[1]>>]
 Spec == Init /\ [][Next]_st
-Complete == Layer = "string" \/ st.dom # <<>>
+Complete == Layer = "string" \/ Len(st.dom) = 2
 
 AlgebraLaws ==
   Layer = "algebra" /\ Complete =>
